@@ -164,7 +164,9 @@ Proof. vm_compute. reflexivity. Qed.
    Improvement round.  (a) the partition / no-loss / no-invention statements on the FINAL state [post_email items p] (loop AND body merge);
    (b) the round trip through TEXT: [ser_text spell r] is the document the serialiser writes, [parse_lines] cuts a document of plain
    "Name: value" lines + blank line + body into the header list and payload (None on any other document), and the oracle assumption
-   shrinks to "the email package agrees with parse_lines on such documents" (checked by the command e.lines). *)
+   shrinks to "the email package agrees with parse_lines on such documents".  That assumption is SAMPLED, not proved: the command e.lines
+   compares the package with parse_lines on generated str documents without surrogate code points; for UTF-8 bytes input nothing is
+   proved - that leg rests on the laws law.e.strbytes / law.e.roundtrip of the harness. *)
 
 (* 6. FINAL-STATE PARTITION: every name that is present - a (lower-cased) header name, or 'description' when there is a body - is under
       exactly one of the two RETURNED dicts; conversely every key of either dict stems from a name that is present *)
@@ -199,7 +201,11 @@ Proof. apply parse_text_of. Qed.
 Print Assumptions C18_parse_lines_of_text.
 (* ... so the ROUND TRIP holds through the text: on top of [wf r], [wf_text] asks that no value (the description, which is the body,
    excepted) contains a line-break character (LF CR VT FF FS GS RS NEL LS PS: str.splitlines) and that string values and list items
-   do not begin with a blank (the header parser strips leading blanks) - the domain where the round trip of the real code holds *)
+   do not begin with a blank (the header parser strips leading blanks), and that every value (the description included) is text: no
+   surrogate code point (the e-mail package reads U+DC80..DCFF in a str as smuggled bytes and rewrites them; the other surrogates make
+   it raise).  The surrogate condition is not needed by the proof - the model treats code points as plain numbers - it is there so that
+   the theorem's domain is one on which the round trip of the real code was observed to hold (str input; sampled by law.e.roundtrip*,
+   failing cases outside it pinned by law.e.roundtrip-neg).  The second conjunct follows from the first and C18_roundtrip. *)
 Theorem C18_text_roundtrip spell r : (forall n, lower_name (spell n) = lower_name n) -> (forall n, header_name_ok n = true -> header_name_ok (spell n) = true) ->
   wf_text r ->
   parse_lines (ser_text spell r) = Some (ser_items spell r, ser_payload r) /\
@@ -229,7 +235,7 @@ Example C18_text_nonvacuous : text_check = true.
 Proof. vm_compute. reflexivity. Qed.
 Example C18_wf_text_satisfiable : wf_text [(asc "name", RStr (asc "a b ")); (asc "description", RStr (asc "x" ++ [10] ++ asc " y")); (asc "classifiers", RList [asc "A, B"])].
 Proof.
-  split; [split|].
+  split; [split|split].
   - vm_compute. repeat constructor; cbn [In]; intuition discriminate.
   - intros kv [<-|[<-|[<-|[]]]]; eexists; eexists; (split; [vm_compute; reflexivity|]); cbn [snd fst].
     + split; auto. intros H; vm_compute in H; discriminate H.
@@ -239,6 +245,12 @@ Proof.
     + right. split; [|vm_compute; reflexivity]. intros c H. cbn [In] in H. repeat (destruct H as [<-|H]; [reflexivity|]). contradiction.
     + left. reflexivity.
     + right. intros x [<-|[]]. split; [|vm_compute; reflexivity]. intros c H. cbn [In] in H. repeat (destruct H as [<-|H]; [reflexivity|]). contradiction.
+  - assert (T : forall s c, In c s -> forallb (fun x => (x <? 55296) || (57343 <? x)) s = true -> c < 55296 \/ 57343 < c).
+    { intros s0 c I H. rewrite forallb_forall in H. specialize (H c I). apply orb_prop in H as [H|H]; apply N.ltb_lt in H; auto. }
+    intros kv [<-|[<-|[<-|[]]]]; cbn [text_entry snd].
+    + intros c I. eapply T; [exact I | vm_compute; reflexivity].
+    + intros c I. eapply T; [exact I | vm_compute; reflexivity].
+    + intros x [<-|[]] c I. eapply T; [exact I | vm_compute; reflexivity].
 Qed.
 
 (* 9. header names are case-insensitive PER LINE: header lists that agree line by line up to the capitalisation of the names leave the
